@@ -32,6 +32,22 @@ type tree struct {
 	// sub-expression are reported.
 	fileLex *lexer
 	filePos ast.Pos
+
+	depth int // current nesting of commands and expressions (see maxDepth)
+}
+
+// maxDepth bounds how deeply commands and expressions may nest (a chain
+// a + b + c ... nests to the left and counts). The parser and every later pass
+// recurse over that structure, and a stack overflow is fatal to the process:
+// it cannot be recovered from.
+const maxDepth = 10000
+
+// deeper records one more level of nesting; beyond maxDepth that is an error.
+func (t *tree) deeper() {
+	t.depth++
+	if t.depth > maxDepth {
+		t.errorf("nested too deeply (more than %d levels)", maxDepth)
+	}
 }
 
 // SoyFile parses the input into a SoyFileNode (the AST).
@@ -58,6 +74,7 @@ func SoyFile(name, text string) (node *ast.SoyFileNode, err error) {
 // Terminates when it comes across the given end tag.
 func (t *tree) itemList(until ...itemType) *ast.ListNode {
 	var list *ast.ListNode
+	t.deeper()
 	for {
 		var token = t.next()
 		if list == nil {
@@ -65,6 +82,7 @@ func (t *tree) itemList(until ...itemType) *ast.ListNode {
 		}
 		var node, halt = t.textOrTag(token, until)
 		if halt {
+			t.depth--
 			return list
 		}
 		if node != nil {
@@ -858,6 +876,8 @@ var precedence = map[itemType]int{
 // For handling binary operators, we use the Precedence Climbing algorithm described in:
 //   http://www.engr.mun.ca/~theo/Misc/exp_parsing.htm
 func (t *tree) parseExpr(prec int) ast.Node {
+	var depth = t.depth
+	t.deeper()
 	n := t.parseExprFirstTerm()
 	var tok item
 	for {
@@ -867,12 +887,16 @@ func (t *tree) parseExpr(prec int) ast.Node {
 			break
 		}
 		q++
+		t.deeper() // a chain of operators nests to the left
 		n = newBinaryOpNode(tok, n, t.parseExpr(q))
 	}
 	if prec == 0 && tok.typ == itemTernIf {
-		return t.parseTernary(n)
+		n = t.parseTernary(n)
+		t.depth = depth
+		return n
 	}
 	t.backup()
+	t.depth = depth
 	return n
 }
 
